@@ -127,6 +127,35 @@ def sig(info):
     return {'kind': 'front_ends', 'fields': ','.join(sorted({b[0].split('[')[0] for b in info['bad']}))}
 
 
+def many_failures_phase(out):
+    """both front ends on ONE module with exactly 256 failing doctests (and with 255): each must exit non-zero (a process status keeps
+    8 bits: a status that counts the failures wraps to 0)"""
+    import re
+    import subprocess
+    d = common.scratch_dir('xdv-c15many')
+    for n in (255, 256):
+        path = os.path.join(d, 'xdvmany15_%d.py' % n)
+        with open(path, 'w') as f:
+            f.write('def ok():\n    """\n    >>> 1 + 1\n    2\n    """\n')
+            for i in range(n):
+                f.write('\n\ndef bad%d():\n    """\n    >>> %d\n    -1\n    """\n' % (i, i))
+        env = dict(os.environ)
+        nat = subprocess.run([common.PY, '-m', 'xdoctest', path, 'all', '--verbose', '0'], cwd=d, env=env, stdout=subprocess.PIPE, stderr=subprocess.STDOUT, text=True)
+        pyt = subprocess.run([common.PY, '-m', 'pytest', '--xdoctest', '-p', 'no:cacheprovider', '-q', '-c', '/dev/null', '--rootdir=' + d, path], cwd=d, env=env,
+                             stdout=subprocess.PIPE, stderr=subprocess.STDOUT, text=True)
+        out.traces += 1
+        out.evaluations += 2
+        bad = []
+        if nat.returncode == 0 or pyt.returncode == 0:
+            bad.append(('exit_status_nonzero(native,pytest)', 'both non-zero', (nat.returncode, pyt.returncode)))
+        if bad:
+            out.violation({'kind': 'front_ends', 'fields': ','.join(sorted(b[0].split('(')[0] for b in bad)), 'failing_doctests': n},
+                          {'module': '%d failing doctests and one passing' % n, 'disagreements': [(f, repr(a), repr(b)) for f, a, b in bad],
+                           'native_tail': nat.stdout[-300:], 'pytest_tail': pyt.stdout[-300:]})
+    out.extra['many_failures_modules'] = [255, 256]
+    common.cleanup_scratch()
+
+
 def run(tier):
     out = common.Outcome('C15', tier)
     b = BOUNDS[tier]
@@ -161,6 +190,7 @@ def run(tier):
     out.nontrivial_count = len(infos)
     out.extra['doctests_compared'] = out.evaluations
     common.cleanup_scratch()
+    many_failures_phase(out)
     for dev in ('PytestRunsDisabled', 'NoAnythingRanCheck'):
         sessionlib.deviation_must_fail(out, dev, kinds=KINDS, maxdocs=2, commands=('all',), fronts=('pytest',))
     out.exhaustive = False
